@@ -99,8 +99,8 @@ def family(tier):
     add("tapdance", "ab", "(deflayer l0 (tap-dance 3 (x S-y lctl)) z)", qmax=3, quick=False)
     add("chordv1", "abc", "(defchords g 3 (a) x (b) y (a b) S-z (a b c) lctl (c) w)\n"
                           "(deflayer l0 (chord g a) (chord g b) (chord g c))", qmax=3, quick=False)
-    add("macro", "ab", "(deflayer l0 (macro S-(x 2 y) z) (macro C-x 1 A-(y)))", qmax=2)
-    add("macro_repeat", "ab", "(deflayer l0 (macro-repeat S-x 1) y)", qmax=2, quick=False)
+    add("macro", "ab", "(deflayer l0 (macro S-(x 1 y)) (macro C-x))", qmax=2, seqbound=2)
+    add("macro_repeat", "ab", "(deflayer l0 (macro-repeat S-x 1) y)", qmax=2, seqbound=2, quick=False)
     add("fork_switch", "abc", "(deflayer l0 lsft (fork x (multi lctl y) (lsft)) "
                               "(switch (lsft) z break ((not lsft)) (multi lalt w) break))", qmax=3)
     add("overrides", "abc", "(defoverrides (lsft a) (x) (lsft lctl a) (lalt y))\n(deflayer l0 lsft a lctl)", qmax=3)
@@ -118,8 +118,8 @@ def family(tier):
                                   "(deflayer l1 _ (tap-hold-press 0 2 z lsft) _)", qmax=2)
     add("oneshot_x_chordv1", "ab", "(defchords g 3 (a) x (b) (one-shot 3 lsft) (a b) (one-shot-release 2 lctl))\n"
                                    "(deflayer l0 (chord g a) (chord g b))", qmax=3, osbound=3)
-    add("macro_x_relcancel", "ab", "(deflayer l0 (macro-release-cancel S-(x 2 y) z) (macro-cancel-on-press C-(x 1 y)))",
-        qmax=2)
+    add("macro_x_relcancel", "ab", "(deflayer l0 (macro-release-cancel S-(x 1 y)) (macro-cancel-on-press C-(x 1 y)))",
+        qmax=2, seqbound=2)
     add("tde_x_layer", "ab", "(deflayer l0 (tap-dance-eager 3 (x (layer-while-held l1) lsft)) y)\n"
                              "(deflayer l1 _ (multi lctl z))", qmax=3)
     add("oneshot_x_taphold", "ab", "(deflayer l0 (one-shot 3 lsft) (tap-hold 0 2 y lctl))", qmax=3, osbound=3, quick=False)
@@ -130,7 +130,7 @@ def family(tier):
                                    "(deflayer l0 (chord g a) (chord g b))", qmax=3, quick=False)
     add("macro_x_vkey", "ab", "(defvirtualkeys v (multi lsft (layer-while-held l1)))\n"
                               "(deflayer l0 (macro (on-press press-vkey v) x 1 (on-press release-vkey v)) y)\n"
-                              "(deflayer l1 _ z)", qmax=2, quick=False)
+                              "(deflayer l1 _ z)", qmax=2, seqbound=2, quick=False)
     add("holdfor_x_oneshot", "ab", "(defvirtualkeys v (one-shot 2 lsft))\n(deflayer l0 (hold-for-duration 3 v) x)",
         qmax=3, osbound=3, quick=False)
     return F
@@ -145,6 +145,11 @@ def mc_part(res, tier, wd, rng):
                 "monitor": {"module": MON, "params": params}}
         if io.get("custom_th"):
             inst["custom_th"] = io["custom_th"]
+        if io.get("seqbound"):
+            # overlapping macros multiply the cursor positions: the exhaustive instances stop at `seqbound`
+            # simultaneously running macros, the burst scripts go beyond the 4-slot ring on the real code
+            inst["constraint"] = "SeqBound"
+            inst["extra_defs"] = "SeqBound == Len(K.L.seqs) <= %d" % io["seqbound"]
         if io.get("osbound"):
             # re-pressing a one-shot key stacks coordinates up to the 16-entry ring: the exhaustive instances stop
             # at 3 stacked entries, the burst scripts below go beyond 16 on the real code
